@@ -64,12 +64,12 @@ PROPS = {
     ),
     "C09": dict(
         level_text='FULL: table semantics of every single parameter, extended colours incl. colon forms and malformed groups, sequencing, encoder round trip C09_diff for all pen pairs, attributes_formatted on any receiver pen, finite sweep 0..255.',
-        families=[("sgr", 2000, 60000), ("table", 1500, 44928)],
+        families=[("sgr", 2000, 60000), ("table", 1500, 45018)],
         projection="Screen.sgr, Attrs.sgr_diff, attributes_formatted bytes", model_decides=True,
     ),
     "C10": dict(
         level_text='FULL: mode_effect table over the 240-state space, independence from all other state and input (C10_independent), most-recent-wins, formatted/diff round trips for all pairs, emptiness iff equal.',
-        families=[("modes", 2000, 40000), ("table", 1500, 44928)],
+        families=[("modes", 2000, 40000), ("table", 1500, 45018)],
         projection="mode fields of the screen, input_mode_formatted / input_mode_diff bytes", model_decides=True,
     ),
     "C11": dict(
@@ -109,7 +109,7 @@ PROPS = {
     ),
     "C18": dict(
         level_text='FULL: events_of table with C18_exact for every action, inertness of reported actions, silence of implemented ones, exactly-one-action theorems for general CSI/ESC/OSC grammars incl. limits.',
-        families=[("csi", 1500, 50000), ("chunk", 500, 10000), ("table", 2500, 44928)],
+        families=[("csi", 1500, 50000), ("chunk", 500, 10000), ("table", 2500, 45018)],
         projection="callback event log and vte action stream", model_decides=True,
     ),
     "C19": dict(
@@ -126,7 +126,7 @@ _ROOT = os.path.dirname(os.path.dirname(os.path.abspath(__file__)))
 # Every check also runs a slice of the broad families: a change that breaks property X often
 # manifests only in a scenario another family generates, and the state correspondence compares
 # the complete dump on every script whatever its family.
-BROAD = [("stream", 400, 8000), ("csi", 400, 8000), ("emit", 300, 6000), ("resize", 200, 4000), ("table", 300, 44928), ("exh", 6000, 1213568), ("opx", 8000, 885120)]
+BROAD = [("stream", 400, 8000), ("csi", 400, 8000), ("emit", 300, 6000), ("resize", 200, 4000), ("table", 300, 45018), ("exh", 6000, 1213568), ("opx", 8000, 885120)]
 for _pid, _info in PROPS.items():
     _have = {f for f, _, _ in _info["families"]}
     _info["families"] = list(_info["families"]) + [b for b in BROAD if b[0] not in _have]
